@@ -54,6 +54,11 @@ theorem default_perOp_is_connection_wide (ops maxT : Int) :
     0 < Gen.Util.MaxTimeout := by
   refine ⟨?_, ?_, by decide⟩ <;> simp [getTimeout, Gen.Channel.defaultTimeout, Gen.Netconf.defaultTimeout]
 
+/-- configuration used by the satisfiability examples: prompt = "ends in `#`" -/
+def exCfg : Cfg :=
+  { depth := 100, mult := 2, exact := false, strip := false, ret := [10],
+    promptP := fun w => w.getLast? == some 35, stripP := fun b => b }
+
 /-! ## the deadline is honoured -/
 
 /-- Whatever the operation, the device and the schedule: an operation whose deadline is not
@@ -128,6 +133,14 @@ theorem networkSendCommand_stall (d : Nat) (hd : 0 < d) (acq : Prog Unit) (cmd :
     simp only at h1
     subst h1
     exact ⟨rfl, h2⟩
+
+/-- the hypotheses are satisfiable: an implicit acquire whose first prompt never completes
+    (`\nr` of `\nr#` delivered) stalls -/
+example : Stalls (acquireP exCfg id (fun _ => false) [101] 5 1) [] [([10, 114, 35] : Bytes).take 2] := by
+  show Stalls (.io _ _ _ _) [] _
+  apply Stalls.here
+  intro j
+  simpa using noPrefix_of_exactAt (promptPred exCfg) [10, 114, 35] (by decide) 2 (by decide) j
 
 /-! ## the concrete operations are such programs -/
 
@@ -262,12 +275,8 @@ theorem sendInput_stall_timeout (d : Nat) (hd : 0 < d) (cfg : Cfg) (cmd : Bytes)
   rw [a]
   exact ⟨rfl, b, c⟩
 
-/-- a concrete instance of the hypotheses: prompt = "ends in `#`", command `a`, echo `a`, answer
-    `\no\nr#`; the stall points 0 … 5 all satisfy them -/
-def exCfg : Cfg :=
-  { depth := 100, mult := 2, exact := false, strip := false, ret := [10],
-    promptP := fun w => w.getLast? == some 35, stripP := fun b => b }
-
+/-- a concrete instance of the hypotheses: command `a`, echo `a`, answer `\no\nr#`; the stall
+    points 0 … 5 all satisfy them -/
 example : ExactAt (echoPred exCfg [97]) [97] ∧ ExactAt (promptPred exCfg) [10, 111, 10, 114, 35] := by
   decide
 
